@@ -39,7 +39,7 @@ def ref_bigsize(m, v):
     def be(v, n):
         if not isinstance(v, T):
             return list(v.to_bytes(n, 'big'))
-        bs = [sym.fresh('rb') for _ in range(n)]
+        bs = [m.fresh('rb') for _ in range(n)]
         tot = 0
         for b in bs:
             m.pc.append(sym.and_(sym.le(0, b), sym.le(b, 255)))
